@@ -33,6 +33,17 @@ noValue = base.noValue
 SubstrateUnderrunError = error.SubstrateUnderrunError
 
 
+def _consumed(substrate):
+    """Number of octets read from the substrate so far.
+
+    Like `tell()`, but keeps counting when the caching wrapper around a
+    non-seekable stream drops what it has cached and numbers its positions
+    from zero again: the difference of two readings is the number of octets
+    read in between, whatever was decoded (and marked) in between.
+    """
+    return substrate.tell() + getattr(substrate, 'droppedOctets', 0)
+
+
 class AbstractPayloadDecoder(object):
     protoComponent = None
 
@@ -232,9 +243,9 @@ class BitStringPayloadDecoder(AbstractSimplePayloadDecoder):
 
         bitString = self.protoComponent.fromOctetString(null, internalFormat=True)
 
-        current_position = substrate.tell()
+        current_position = _consumed(substrate)
 
-        while substrate.tell() - current_position < length:
+        while _consumed(substrate) - current_position < length:
             for component in decodeFun(
                     substrate, self.protoComponent, substrateFun=substrateFun,
                     **options):
@@ -347,9 +358,9 @@ class OctetStringPayloadDecoder(AbstractSimplePayloadDecoder):
 
         header = null
 
-        original_position = substrate.tell()
+        original_position = _consumed(substrate)
         # head = popSubstream(substrate, length)
-        while substrate.tell() - original_position < length:
+        while _consumed(substrate) - original_position < length:
             for component in decodeFun(
                     substrate, self.fragmentSpec, substrateFun=substrateFun,
                     **options):
@@ -631,9 +642,9 @@ class ConstructedPayloadDecoderBase(AbstractConstructedPayloadDecoder):
         components = []
         componentTypes = set()
 
-        original_position = substrate.tell()
+        original_position = _consumed(substrate)
 
-        while length == -1 or substrate.tell() < original_position + length:
+        while length == -1 or _consumed(substrate) < original_position + length:
             for component in decodeFun(substrate, **options):
                 if isinstance(component, SubstrateUnderrunError):
                     yield component
@@ -690,7 +701,7 @@ class ConstructedPayloadDecoderBase(AbstractConstructedPayloadDecoder):
         if tagSet[0].tagFormat != tag.tagFormatConstructed:
             raise error.PyAsn1Error('Constructed tag format expected')
 
-        original_position = substrate.tell()
+        original_position = _consumed(substrate)
 
         if substrateFun:
             if asn1Spec is not None:
@@ -714,7 +725,7 @@ class ConstructedPayloadDecoderBase(AbstractConstructedPayloadDecoder):
                 if isinstance(asn1Object, SubstrateUnderrunError):
                     yield asn1Object
 
-            if substrate.tell() < original_position + length:
+            if _consumed(substrate) < original_position + length:
                 if LOG:
                     for trailing in readFromStream(substrate, context=options):
                         if isinstance(trailing, SubstrateUnderrunError):
@@ -746,7 +757,7 @@ class ConstructedPayloadDecoderBase(AbstractConstructedPayloadDecoder):
 
             seenIndices = set()
             idx = 0
-            while substrate.tell() - original_position < length:
+            while _consumed(substrate) - original_position < length:
                 if not namedTypes:
                     componentType = None
 
@@ -888,7 +899,7 @@ class ConstructedPayloadDecoderBase(AbstractConstructedPayloadDecoder):
 
             idx = 0
 
-            while substrate.tell() - original_position < length:
+            while _consumed(substrate) - original_position < length:
                 for component in decodeFun(substrate, componentType, **options):
                     if isinstance(component, SubstrateUnderrunError):
                         yield component
@@ -1860,7 +1871,7 @@ class SingleItemDecoder(object):
                 if not options.get('recursiveFlag', True) and not substrateFun:  # deprecate this
                     substrateFun = lambda a, b, c: (a, b[:c])
 
-                original_position = substrate.tell()
+                original_position = _consumed(substrate)
 
                 if length == -1:  # indef length
                     for value in concreteDecoder.indefLenValueDecoder(
@@ -1878,7 +1889,7 @@ class SingleItemDecoder(object):
                         if isinstance(value, SubstrateUnderrunError):
                             yield value
 
-                    bytesRead = substrate.tell() - original_position
+                    bytesRead = _consumed(substrate) - original_position
                     if bytesRead != length:
                         raise PyAsn1Error(
                             "Read %s bytes instead of expected %s." % (bytesRead, length))
